@@ -481,7 +481,31 @@ def pmcBranchesExpected : List String := [
   "if internals.NonOptional && !isPtr",
   "if internals.Optional || internals.Nilable || isPtr",
   "if expectedType == core.ZodTypeUnknown",
-  "return nil, true, issues.CreateInvalidTypeError(expectedType, input, ctx)"]
+  -- since /repo 6d3c407 the schema is handed on so that its own message is consulted (the error class is unchanged)
+  "return nil, true, issues.CreateInvalidTypeErrorWithInst(expectedType, input, ctx, internals)"]
+
+/-- `processModifiersCore`'s FIRST statement in full (round 4c, audit A M10): the non-nil branch. `ctxStepX` /
+    `processModifiersCtx` answer a non-nil input without reading the modifier state (`processModifiers_nonNil` is
+    `rfl`) — that is the code's structure only if the real first statement is this one: its condition mentions the
+    input alone, its body is the bare "not handled" return, it has no else. -/
+def pmcFirstCondExpected : String := "!isNilInput(input)"
+def pmcFirstBodyExpected : List String := ["return nil, false, nil"]
+
+/-- Identifiers through which the non-nil branch (or `isNilInput`) could reach the modifier state or the context. -/
+def stateIdent (i : String) : Bool := i == "internals" || i == "ctx" || i == "expectedType"
+
+/-- Where internal/engine may read a modifier field (`Optional`, `Nilable`, `NonOptional`, `ExactOptional`,
+    `DefaultValue/Func`, `PrefaultValue/Func`, or through `IsOptional()` …): in `processModifiersCore` after the
+    non-nil return; under a conjunct `isNilInput(input)`; in `resolveDefault` (called by `processModifiersCore` only:
+    `resolveDefaultCallers`); in `MergeInternalsState` (builds a schema, parses nothing); and ONE listed read on a
+    non-nil path — `ParsePrimitiveStrict`'s fast-path test `!isNilInput(input) && no checks && no transform && no
+    modifier`, which only selects between returning the input at once and the general path (which, for a schema without
+    checks and transform, returns the input too: decided by the run, StrictParse steps). -/
+def modifierReadAllowed (file fn _field guard : String) : Bool :=
+  guard == "pmc-after-nonnil-return" || guard == "nil-guarded" ||
+  (file == "internal/engine/modifiers.go" && fn == "resolveDefault") ||
+  (file == "internal/engine/types.go" && fn == "MergeInternalsState") ||
+  (file == "internal/engine/parser.go" && fn == "ParsePrimitiveStrict" && guard == "nonnil-guarded")
 
 /-- `processModifiers` and `processModifiersStrict` are that one call and nothing else (no state kept around it). -/
 def processModifiersBodyExpected : String := "return processModifiersCore[T](input, internals, expectedType, ctx)"
